@@ -911,3 +911,54 @@ Proof.
   - match goal with |- context [decode_logs ?st1 evs] => specialize (IH st1); destruct (decode_logs st1 evs) as [[f e] s] end.
     cbn [app ls_size] in *. lia.
 Qed.
+
+(* ------------------------------------------------------------------------------------------ *)
+(** * 13. The dispatch written by hand in IngestRobust.v is the one of the route table *)
+
+Definition route_of (h : string) : route :=
+  match find_route routes_model h with Some r => r | None => {| rt_handler := ""; rt_pre := []; rt_parsers := []; rt_nested_pre := []; rt_status := 0 |} end.
+
+Lemma ingest_select_is_table : forall ct,
+  route_dispatch (route_of "PushProfileV2") ct
+  = match ingest_select ct with
+    | Some IPMultipart => Some "UnmarshalProfileProtoV2"%string
+    | Some IPBinary => Some "UnmarshalBinaryStreamProfileProtoV2"%string
+    | None => None
+    end.
+Proof.
+  intros ct. unfold route_dispatch, dispatch_in_order, ingest_select. vm_compute (route_of "PushProfileV2"). cbn [rt_parsers find fst snd].
+  destruct (prefix "multipart/form-data" ct); [reflexivity|].
+  destruct (prefix "binary/octet-stream" ct); reflexivity.
+Qed.
+
+Lemma zipkin_nd_is_table : forall ct,
+  route_dispatch (route_of "PushV2") ct
+  = Some (if prefix "ndjson" ct then "UnmarshalZipkinNDJSONV2" else "UnmarshalZipkinJSONV2")%string.
+Proof.
+  intros ct. unfold route_dispatch, dispatch_in_order. vm_compute (route_of "PushV2"). cbn [rt_parsers find fst snd].
+  destruct (prefix "ndjson" ct); [reflexivity|].
+  (* the key "*" is a prefix only of content types that start with an asterisk: same parser either way *)
+  destruct (prefix "*" ct); reflexivity.
+Qed.
+
+Lemma loki_push_is_table : forall ct,
+  route_dispatch (route_of "PushStreamV2") ct
+  = Some (if prefix "application/x-protobuf" ct then "UnmarshalProtoV2" else "DecodePushRequestStringV2")%string.
+Proof.
+  intros ct. unfold route_dispatch, dispatch_in_order. vm_compute (route_of "PushStreamV2"). cbn [rt_parsers find fst snd].
+  destruct (prefix "*" ct) eqn:Hs.
+  - (* a content type starting with an asterisk cannot start with application/... *)
+    destruct ct as [|a ct']; [discriminate|]. cbn [prefix] in Hs |- *.
+    destruct (ascii_dec "*" a) as [<-|]; [|discriminate]. reflexivity.
+  - destruct (prefix "application/x-protobuf" ct); reflexivity.
+Qed.
+
+Lemma content_encoding_is_source_switch : forall accepted ce gz,
+  accepted = [""; "gzip"; "snappy"]%string ->
+  (existsb (String.eqb ce) accepted = false <-> content_encoding ce gz = CeStatus C4xx).
+Proof.
+  intros accepted ce gz ->. unfold content_encoding. cbn [existsb].
+  destruct (String.eqb ce ""); cbn [orb]; [split; discriminate|].
+  destruct (String.eqb ce "gzip"); cbn [orb]; [destruct gz; split; discriminate|].
+  destruct (String.eqb ce "snappy"); cbn [orb]; [split; discriminate|]. split; reflexivity.
+Qed.
